@@ -5,6 +5,7 @@ import Driver.Sig
 import Driver.Export
 import Driver.Schema
 import Driver.Cli
+import Driver.Carve
 
 open SqliteDissect
 
@@ -25,6 +26,8 @@ def dispatch (toks : List String) : IO String := do
         pure (Driver.Codec.handle toks)
       else if op.startsWith "cell." || op.startsWith "ptrmap." || op.startsWith "hdr." then
         pure (Driver.Arith.handle toks)
+      else if op.startsWith "carve." then
+        (try Driver.Carve.handle toks catch e => pure (some s!"io-error {e}"))
       else if op.startsWith "db." || op.startsWith "vh." then
         (try Driver.Db.handle toks catch e => pure (some s!"io-error {e}"))
       else pure none
